@@ -50,10 +50,9 @@ h_modexp(void)
 	__CPROVER_assert(DH_LOG(0).b + DH_LOG(1).b == pv + ((bn_val_t)1 << 258), "C10: e1 + e2 == 2^258 + priv for every blinding value");
 	__CPROVER_assert(DH_LOG(0).m == spec_group14_value() && DH_LOG(1).m == DH_LOG(0).m && DH_LOG(2).m == DH_LOG(0).m, "C10: modulus is the RFC 3526 group-14 prime");
 	__CPROVER_assert(DH_LOG(0).a == aval && DH_LOG(1).a == aval, "C10: both exponentiations use the given base");
-	VCOVER(pv == 0 && g_bn.rand_val == 0);
-	VCOVER(pv == (((bn_val_t)1 << 256) - 1) && g_bn.rand_val == (((bn_val_t)1 << 256) - 1) && aval == 0);
-	VCOVER(DH_LOG(2).out < ((bn_val_t)1 << 2000) && g_oi == 3 && r[3] == 0 && r[255] == 7);
-	VCOVER(DH_LOG(2).out == 0);
+	/* few markers: each costs a SAT iteration over 2112-bit values */
+	VCOVER(pv == (((bn_val_t)1 << 256) - 1) && g_bn.rand_val == (((bn_val_t)1 << 256) - 1));
+	VCOVER(DH_LOG(2).out < ((bn_val_t)1 << 2040) && g_oi == 0);
 #else
 	__CPROVER_assert(rc == -1, "C10: a failing BN / entropy call makes blinded_modexp fail");
 	VCOVER(rc == -1 && g_bn.opcount == DH_FAIL_AT + 1);
